@@ -4,6 +4,10 @@ import gen, vlib
 from gen import enc_value, enc_struct
 
 SCRIPTS = [
+    # top-level loops that end by panic / error / early return while their scope is open; the host then touches the loop variable's name
+    "foreach item in [10, 20, 30] { if (Mode == 2 && item == 20) { panic(\"stop\"); } if (Mode == 1 && item == 20) { return 1 % 0; } if (Mode == 3) { return item; } last = item; } return [item, last];",
+    "foreach k, v in Meta { foreach item in Tags { if (Mode == 2) { panic(); } if (Mode == 1) { return nosuch(); } seen = item; } } return [item, k, v, seen];",
+    "w = 0; while (w < 3) { foreach item in 1..3 { if (Mode == 2 && item == 2) { return t(1) % 0; } } w = w + 1; } return item;",
     # scripts whose runs end in different ways depending on the object
     "n = n + 1; if (Mode == 1) { return 1 / 0; } if (Mode == 2) { panic(\"boom\"); } if (Mode == 3) { return f(1, 2); } if (Mode == 4) { foreach x in [1, 2, 3] { foreach y in \"ab\" { if (x == 2) { return x; } } } } if (Mode == 5) { return g(3); } return n; function f(a) { return a; } function g(k) { foreach i in 1..5 { if (i == k) { return deep(i); } } return 0; } function deep(z) { local q; q = z; foreach c in \"xyz\" { if (c == \"y\") { return undefinedfn(q); } } return 1; }",
     "if (Mode == 1) { return h(); } if (Mode == 2) { w = 0; while (true) { w = w + 1; } } total = total + Count; return total; function h() { foreach e in [1] { panic(); } }",
@@ -33,6 +37,12 @@ class C07(Prop):
         ops.append("prepare:" + rng.choice(["opt", "noopt"]))
         for _ in range(nruns):
             ops.append(rng.choice(["exec", "run"]) + ":%d" % rng.randrange(len(objs)))
+            # the host looks at / stores variables between runs, also under names the script uses for loop variables
+            r = rng.random()
+            if r < 0.25:
+                ops.append("getvar:%s" % vlib.hx(rng.choice(["item", "k", "v", "n", "x", "last", "seen"])))
+            elif r < 0.4:
+                ops.append("setvar:%s:%s" % (vlib.hx(rng.choice(["item", "k", "n", "x", "last"])), enc_value(rng.choice([1, 7, "s"]))))
         return {"script": vlib.hx(script), "objs": ";".join(objs), "ops": ";".join(ops)}
 
     def cases(self, rng, tier):
@@ -56,34 +66,44 @@ class C07(Prop):
     def extra_checks(self, tier, st, rng=None, cases=None, go=None):
         """every run of every history again on a fresh evaluator holding the same variables"""
         fresh, meta = [], []
+        viol = []
+        OPT = vlib.hx("OPTIMIZE")
         for c in cases:
             g = go.get(c.cid)
             if not g or c.kind != "run":
                 continue
             ops = c.fields["ops"].split(";")
             prep = [i for i, o in enumerate(ops) if o.startswith("prepare")][0]
-            setup = [o for o in ops[:prep] if not o.startswith("ctx")]
-            prev_vars = None
+            addfns = [o for o in ops[:prep] if o.startswith("addfn")]
+            cur = {}                       # the variables the evaluator holds, as the host knows them
+            for o in ops[:prep]:
+                if o.startswith("setvar"):
+                    _, n, v = o.split(":", 2)
+                    cur[n] = v
+            timed_out = False
             for i in range(prep + 1, len(ops)):
-                if ops[i].split(":")[0] not in ("exec", "run"):
-                    continue
-                if g.get("o%d.class" % i) is None:
-                    break
-                # variables held before this run: those after the previous run (or after prepare)
-                if prev_vars is None:
-                    vs = [o for o in setup if o.startswith("setvar")]
-                else:
-                    vs = ["setvar:%s:%s" % tuple(p.split("=", 1)) for p in prev_vars.split("&") if p and not p.startswith(vlib.hx("OPTIMIZE") + "=")]
-                if g.get("o%d.class" % i) == "timeout" or any(g.get("o%d.class" % j) == "timeout" for j in range(prep + 1, i)):
-                    prev_vars = g.get("o%d.vars" % i)
-                    continue   # the logical budget is shared by the runs of a history: not comparable with a fresh budget
-                fops = [o for o in setup if o.startswith("addfn")] + vs + [ops[prep], ops[i]]
-                cid = "F%d" % len(fresh)
-                fresh.append(vlib.case_line(cid, "run", script=c.fields["script"], objs=c.fields["objs"], ops=";".join(fops)))
-                meta.append((cid, c, i, len(fops) - 1))
-                prev_vars = g.get("o%d.vars" % i)
+                kind = ops[i].split(":")[0]
+                if kind == "setvar":
+                    _, n, v = ops[i].split(":", 2)
+                    cur[n] = v
+                elif kind == "getvar":
+                    want = cur.get(ops[i].split(":")[1], "n")
+                    got = g.get("o%d.get" % i)
+                    if got is not None and got != want:
+                        viol.append((c, "GetVariable after operation #%d returns %s, but the evaluator was last given / left with %s" % (i, got, want)))
+                elif kind in ("exec", "run"):
+                    if g.get("o%d.class" % i) is None:
+                        break
+                    if g.get("o%d.class" % i) == "timeout":
+                        timed_out = True       # the logical budget is shared by the runs of a history
+                    if not timed_out:
+                        vs = ["setvar:%s:%s" % (n, v) for n, v in sorted(cur.items())]
+                        fops = addfns + vs + [ops[prep], ops[i]]
+                        cid = "F%d" % len(fresh)
+                        fresh.append(vlib.case_line(cid, "run", script=c.fields["script"], objs=c.fields["objs"], ops=";".join(fops)))
+                        meta.append((cid, c, i, len(fops) - 1))
+                    cur = dict(p.split("=", 1) for p in (g.get("o%d.vars" % i) or "").split("&") if p and not p.startswith(OPT + "="))
         res, _ = vlib.run_go(fresh, tag="C07-fresh") if fresh else ({}, [])
-        viol = []
         for (cid, c, i, k) in meta:
             r = expand(res.get(cid))
             g = go[c.cid]
